@@ -10,6 +10,7 @@
 #include <nitro/lang/fixed_vector.hpp>
 
 #include <cstring>
+#include <stdexcept>
 #include <string>
 #include <vector>
 
@@ -284,8 +285,79 @@ inline void ramp(const std::string& owner, mc::Report& rep, bool small_only)
     }
 }
 
+// A trivially copyable element type whose constructor from the emplace argument can refuse it (a validated plain-data
+// wrapper: percentage, port number).  The instrumented types of fv.hpp throw but are not trivially copyable, the Pod types
+// are trivially copyable but never throw - a bulk-move fast path for trivially copyable types that shifts before it
+// constructs is only reached by both together.  A refused single-element operation leaves the contents unchanged.
+struct Validated
+{
+    long id;
+    Validated() : id(0)
+    {
+    }
+    Validated(long v) : id(v)
+    {
+        if (v < 0)
+            throw std::runtime_error("value rejected");
+    }
+    bool operator==(const Validated& o) const
+    {
+        return id == o.id;
+    }
+};
+inline void refused_construction(const std::string& owner, mc::Report& rep)
+{
+    static_assert(std::is_trivially_copyable<Validated>::value, "trivially copyable on purpose");
+    using FV = nitro::lang::fixed_vector<Validated>;
+    for (size_t cap : { 4u, 5u, 40u })
+        for (size_t fill = 0; fill < cap && fill <= 36; fill += (fill < 4 ? 1 : 16))
+            for (size_t pos = 0; pos <= fill + 1; pos++)
+            {
+                FV v(cap);
+                std::vector<long> ref;
+                for (size_t i = 0; i < fill; i++)
+                {
+                    v.emplace_back(static_cast<long>(10 * (i + 1)));
+                    ref.push_back(static_cast<long>(10 * (i + 1)));
+                }
+                bool threw = false, back = pos == fill + 1;
+                try
+                {
+                    if (back)
+                        v.emplace_back(-1L);
+                    else
+                        v.emplace(v.begin() + pos, -1L);
+                }
+                catch (std::exception&)
+                {
+                    threw = true;
+                }
+                rep.count("executions");
+                rep.count("pod_refused_construction_cases");
+                std::string what = "fixed_vector<trivially copyable type with a validating constructor>, capacity " + std::to_string(cap) + ", " + std::to_string(fill) +
+                                   " elements, " + (back ? std::string("emplace_back(rejected value)") : "emplace(begin() + " + std::to_string(pos) + ", rejected value)");
+                std::string clause, detail;
+                if (!threw)
+                    clause = "unsatisfiable-operation-did-not-throw", detail = what;
+                else if (v.size() != ref.size())
+                    clause = "failed-operation-changed-container", detail = what + ": size " + std::to_string(v.size()) + " expected " + std::to_string(ref.size());
+                else
+                    for (size_t i = 0; i < ref.size(); i++)
+                        if (v[i].id != ref[i])
+                        {
+                            clause = "failed-operation-changed-container";
+                            detail = what + ": index " + std::to_string(i) + " holds " + std::to_string(v[i].id) + " expected " + std::to_string(ref[i]);
+                            break;
+                        }
+                if (!clause.empty())
+                    rep.violation(clause, owner + ":" + clause + ":refused-construction", mc::J().s("pod", "validated").str(), detail, 0);
+            }
+}
+
 inline void all(const std::string& owner, mc::Report& rep, bool small_only)
 {
+    if (owner == "C06")
+        refused_construction(owner, rep);
     ramp(owner, rep, small_only);
     cases<8>(owner, rep, small_only);
     cases<128>(owner, rep, small_only);
